@@ -17,8 +17,8 @@ def fill(P):
     P("C04", "other",
       "contract-based deductive verification (validate_score_vector, score_profile_from_rankings with its three nested loops, add_missing_cands, condense_ballots, mentions, elect_cands_from_set_ranking, Plurality/Borda._run_step) + bounded exact-arithmetic oracle",
       "score_profile_from_rankings is proved for all profiles and exact score vectors: each candidate's score = sum over ballots of weight x the average of the zero-padded vector over its (tied) position, on the ballots completed by add_missing_cands "
-      "(proved) and condensed (proved: every additive per-ranking functional is preserved); Plurality/Borda._run_step are proved against the callee contracts; to_float mode, first_place_votes/borda_scores wrappers and "
-      "score_dict_to_ranking (sorted) are covered by the bounded exact-arithmetic oracle only.",
+      "(proved) and condensed (proved: every additive per-ranking functional is preserved); first_place_votes is proved as the positional score for (1,0,...,0); Plurality/Borda._run_step are proved against the callee contracts; "
+      "to_float mode, borda_scores (range with a step) and score_dict_to_ranking (sorted) are covered by the bounded exact-arithmetic oracle only.",
       "first_place_votes / score_dict_to_ranking stay assumed contracts inside the step proofs (opaque fpv_of / ranking_of); PreferenceProfile(...) assumed (A-PYD).", "DESIGN.md 4-C04, 8.2")
 
     P("C05", "other",
@@ -43,13 +43,14 @@ def fill(P):
       "(itertools.permutations) and dominating_tiers (networkx) are outside the verifier's subset: bounded exhaustive/sampled audit only.", "networkx reachability trusted.", "DESIGN.md 4-C06, 8.2")
     P("C11", "other",
       "contract-based deductive verification of Ballot.__eq__ and PreferenceProfile.condense_ballots (dict keyed by Ballot modelled as ordered key/value sequences looked up through the proved __eq__) + bounded run-time contract check",
-      "condense_ballots is proved for all profiles: per (ranking, scores) content the written ballots carry exactly the input weight, written ballots are pairwise distinct in content, candidates kept; Ballot.__eq__ is characterised exactly. "
-      "Validators / frozen-ness / derived fields / profile == and + are pydantic- or pandas-mediated: bounded check over all orders of <=3 ballots from 12 contents.",
+      "condense_ballots is proved for all profiles: per (ranking, scores) content the written ballots carry exactly the input weight, written ballots are pairwise distinct in content, candidates kept; Ballot.__eq__ is characterised exactly; "
+      "PreferenceProfile.__eq__ is proved sound (profiles that compare equal give every content the same weight) and __add__ additive per content. "
+      "Validators / frozen-ness / derived fields are pydantic-mediated, completeness of == (equal weights => equal) is bounded: check over all orders of <=3 ballots from 12 contents.",
       "PreferenceProfile(...) constructor is an assumed contract (A-PYD); idempotence and order-independence of condensing are bounded (they follow mathematically from the proved clauses, no machine-checked lemma).", "DESIGN.md 4-C11, 8.2")
     P("C12", "other",
-      "contract-based deductive verification of remove_cand (list and str argument on profiles), add_missing_cands and condense_ballots + bounded run-time contract check of all editing utilities",
+      "contract-based deductive verification of remove_cand (list and str argument on profiles), add_missing_cands, cleaning.remove_empty_ballots and condense_ballots + bounded run-time contract check of all editing utilities",
       "remove_cand / add_missing_cands are proved as weight-preserving pushforwards: for every ranking k the result carries exactly the weight of the input ballots whose edited ranking is k; "
-      "tuple / single-ballot forms of remove_cand, cleaning.* and expand_tied_ballot (itertools.permutations) are bounded only.", "", "DESIGN.md 4-C12, 8.2")
+      "tuple / single-ballot forms of remove_cand, the other cleaning functions (map / groupby / reduce) and expand_tied_ballot (itertools.permutations) are bounded only.", "", "DESIGN.md 4-C12, 8.2")
 
     B = "bounded run-time contract check of the real code (B-SSE), labelled bounded, never counted as proved"
     P("C07", "exploration", "bounded exhaustive evaluation of the solid-coalition axiom on real STV counts (lemma over contracts not finished)",
